@@ -70,6 +70,15 @@ def run_spec(arg):
     w = winit()
     bb = w["bb"]
     out = {"spec": spec, "result": "holds", "paths": 0, "stats": None, "why": None, "cex": None, "funcs": [], "reach": 0}
+    if spec and spec[0] in getattr(mod, "SPECIAL", ()):
+        # cases of a check module that are concrete by nature (values outside the number model): one native run, own oracle
+        r = mod.special_check(spec, [], plain_env())
+        out.update(paths=1, reach=1, validated=1, text=mod.special_text(spec))
+        if isinstance(r, dict):
+            r.setdefault("values", [])
+            r["symbolic_what"] = r.get("what")
+            out.update(result="violation", cex=r)
+        return out
     lv = skel.Leaves()
     g = mod.gen(spec, lv)
     text = g["text"]
@@ -154,7 +163,8 @@ def run_spec(arg):
             else:
                 rp = routcome[1]
                 if pth.kind == "exc":
-                    cands.append(("raises %s: %s" % (type(pth.value).__name__, str(pth.value)[:200]), z3.BoolVal(True)))
+                    if not g.get("refusal_also_ok"):
+                        cands.append(("raises %s: %s" % (type(pth.value).__name__, str(pth.value)[:200]), z3.BoolVal(True)))
                 else:
                     c = _cmp.Cmp(True, it.symfactory)
                     try:
@@ -200,6 +210,8 @@ def concrete_check(mod, spec, vals, w=None):
     'skip': outside the domain; dict: mismatch"""
     w = w or plain_env()
     bb = w["bb"]
+    if spec and spec[0] in getattr(mod, "SPECIAL", ()):
+        return mod.special_check(spec, vals, w)
     lv = skel.Leaves(values=vals)
     g = mod.gen(spec, lv)
     text = g["text"]
@@ -244,6 +256,8 @@ def concrete_check(mod, spec, vals, w=None):
             return None
         return dict(base, what=why, observed="%s: %s" % (type(exc).__name__, exc), expected="BlackbirdSyntaxError naming %r at %s:%s" % (rej.ident, rej.line, rej.col))
     rp = routcome[1]
+    if exc is not None and g.get("refusal_also_ok"):
+        return None
     if exc is not None:
         return dict(base, what="raises %s: %s" % (type(exc).__name__, str(exc)[:200]), observed="%s: %s" % (type(exc).__name__, exc), expected="a program")
     c = _cmp.Cmp(False, it.symfactory)
